@@ -377,6 +377,9 @@ func c06Unions(c *Ctx, g *gen.G) {
 			{"SchemaOrBool{}", spec.SchemaOrBool{}, "false"},
 			{"SchemaOrArray{Schema}", spec.SchemaOrArray{Schema: inner}, string(innerJSON)},
 			{"SchemaOrArray{Schemas}", spec.SchemaOrArray{Schemas: []spec.Schema{*inner, *other}}, "[" + string(innerJSON) + "," + string(otherJSON) + "]"},
+			// a tuple with no position is still a tuple ("items": [] with "additionalItems": false admits the empty array only)
+			{"SchemaOrArray{Schemas:empty}", spec.SchemaOrArray{Schemas: []spec.Schema{}}, "[]"},
+			{"SchemaOrArray{Schemas:one}", spec.SchemaOrArray{Schemas: []spec.Schema{*other}}, "[" + string(otherJSON) + "]"},
 			{"SchemaOrStringArray{Schema}", spec.SchemaOrStringArray{Schema: inner}, string(innerJSON)},
 			{"SchemaOrStringArray{Property}", spec.SchemaOrStringArray{Property: names}, string(namesJSON)},
 			{"StringOrArray{1}", spec.StringOrArray{names[0]}, quoteJSON(names[0])},
@@ -390,6 +393,20 @@ func c06Unions(c *Ctx, g *gen.G) {
 		holder.Dependencies = spec.Dependencies{"a": spec.SchemaOrStringArray{Schema: other}, "b": spec.SchemaOrStringArray{Property: names}}
 		cases = append(cases, uv{"Schema{unions}", holder, `{"type":"object","items":[` + string(innerJSON) + `],"additionalProperties":` + string(innerJSON) +
 			`,"additionalItems":` + string(otherJSON) + `,"dependencies":{"a":` + string(otherJSON) + `,"b":` + string(namesJSON) + `}}`})
+		// the empty tuple at its position, built by hand and decoded from text
+		{
+			empty := new(spec.Schema).Typed("array", "")
+			empty.Items = &spec.SchemaOrArray{Schemas: []spec.Schema{}}
+			empty.AdditionalItems = &spec.SchemaOrBool{Allows: false}
+			const text = `{"type":"array","items":[],"additionalItems":false}`
+			cases = append(cases, uv{"Schema{items:[]}", empty, text})
+			var dec spec.Schema
+			if json.Unmarshal([]byte(text), &dec) == nil {
+				cases = append(cases, uv{"Schema decoded from items:[]", dec, text})
+			}
+			nested := new(spec.Schema).Typed("object", "").SetProperty(names[0], dec)
+			cases = append(cases, uv{"Schema{properties{items:[]}}", nested, `{"type":"object","properties":{` + quoteJSON(names[0]) + `:` + text + `}}`})
+		}
 		// a responses object filled in by hand: every integer key is a member of its own, beside `default`
 		{
 			r0, r1, rd := spec.NewResponse().WithDescription("zero"), spec.NewResponse().WithDescription(g.Str()), spec.NewResponse().WithDescription("the default")
